@@ -242,6 +242,42 @@ def cast_case(ctx, rng, idx, pending):
         rep.fail(sig, case, {'expected': repr(want)[:600], 'got': repr(got)[:600]})
 
 
+def headers_case(ctx, rng, idx):
+    """the header row given explicitly (headers=N): names come from line N, one row per line after it, whatever
+    the lines before it look like (titles, notes: shorter than the table)"""
+    rep = ctx.report
+    n_pre = rng.choice([0, 1, 1, 2])
+    pre = [rng.choice([['Report 2020'], ['generated', 'by x'], ['note']]) for _ in range(n_pre)]
+    ncol = rng.choice([2, 3, 4])
+    header = ['c%d' % i for i in range(ncol)]
+    rows = [[('r%dc%d' % (i, j)) for j in range(ncol)] for i in range(rng.choice([1, 3, 6]))]
+    path = os.path.join(ctx.scratch, 'hdr%d.csv' % idx)
+    with open(path, 'w', newline='', encoding='utf-8') as f:
+        w = csv.writer(f)
+        for r in pre + [header] + rows:
+            w.writerow(r)
+    kw = {'headers': n_pre + 1}
+    if rng.random() < 0.3:
+        kw['limit_rows'] = 2
+    case = {'headers-case': {'lines_before_header': pre, 'header': header, 'rows': rows, 'options': kw}}
+    try:
+        with quiet():
+            res, dp, _ = Flow(DF.load(path, **kw)).results(on_error=None)
+    except Exception as e:  # noqa
+        rep.case('load:headers', case, nontrivial=False)
+        rep.fail('headers:load-raises', case, repr(e)[:300])
+        return
+    rep.case('load:headers', case)
+    got_h = [f['name'] for f in dp.descriptor['resources'][0]['schema']['fields']]
+    if got_h != header:
+        rep.fail('headers:names-not-from-the-requested-line', case, {'got': got_h})
+        return
+    want = [dict(zip(header, r)) for r in rows][:kw.get('limit_rows', len(rows))]
+    got = [dict(r) for r in res[0]]
+    if got != want:
+        rep.fail('headers:rows', case, {'expected': want[:4], 'got': got[:4]})
+
+
 def selection_case(ctx, rng, idx):
     """load from a data package on disk / from (descriptor, iterators): exactly the requested resources"""
     rep = ctx.report
@@ -307,6 +343,9 @@ def run(ctx):
         file_case(ctx, rng, idx, pending)
     for idx in range(ctx.n(120, 1200)):
         selection_case(ctx, rng, idx)
+    rng_h = ctx.rng('headers')
+    for idx in range(ctx.n(80, 800)):
+        headers_case(ctx, rng_h, idx)
     rng_c = ctx.rng('cast')
     for idx in range(ctx.n(250, 3000)):
         cast_case(ctx, rng_c, idx, pending)
